@@ -53,7 +53,7 @@ def rewrites_spec(ctx):
     import concurrent.futures
     with concurrent.futures.ThreadPoolExecutor(max_workers=2) as ex:
         # the refutation run is a statement about the specification, not about the code: fixed seed
-        fu = ex.submit(tlc, ctx, "sem/Rewrites", cfg=u, workers=w, mode_args=["-seed", "7"], tag="rwu", xss="64m", deadlock=False, timeout=3000)
+        fu = ex.submit(tlc, ctx, "sem/Rewrites", cfg=u, workers=max(w, 4), mode_args=["-seed", "7"], tag="rwu", xss="64m", deadlock=False, timeout=3000)
         rg = tlc_must_pass(ctx, "sem/Rewrites", cfg=g, workers=w, mode_args=["-seed", str(ctx.seed)], tag="rwg", xss="64m",
                            deadlock=False, timeout=3000)
         ru = fu.result()
@@ -81,11 +81,27 @@ def rewrites_spec(ctx):
 
 # ----------------------------------------------------------------------------- verdicts
 
+def _has_all_setop(x):
+    if isinstance(x, dict):
+        if x.get("op") == "setop" and x.get("all") and x.get("f") in ("intersect", "except"):
+            return True
+        return any(_has_all_setop(v) for v in x.values())
+    if isinstance(x, list):
+        return any(_has_all_setop(v) for v in x)
+    return False
+
+
 def classify(e, view):
     """status of one execution record on one database view."""
     if e is None:
         return "notrun", None
     if view["expect"]["err"]:
+        return "referr", None
+    if view["mode"] in ("subset", "topk") and _has_all_setop(view["plan"]):
+        # The engine evaluates INTERSECT ALL / EXCEPT ALL as semi / anti joins (every left duplicate is kept / removed), the
+        # reference as bag operations (a C01 matter, the same for every plan variant and configuration).  Under a LIMIT
+        # the rows an execution happens to return are then compared with a universe the engine does not share:
+        # no verdict for such cases.
         return "referr", None
     if "err" in e:
         msg = e["err"]
@@ -98,14 +114,48 @@ def classify(e, view):
     return ("ok", None) if m is None else ("diff", m)
 
 
+_KW = {"Int64", "Utf8", "Boolean", "CAST", "AS", "abs", "coalesce", "nullif", "CASE", "WHEN", "THEN", "ELSE", "END", "NULL", "IS", "NOT",
+       "AND", "OR", "TRUE", "FALSE", "DISTINCT", "FROM", "IN", "BETWEEN", "true", "false", "UNKNOWN"}
+
+
+def _split_top(s):
+    out, depth, cur = [], 0, ""
+    for ch in s:
+        if ch in "([":
+            depth += 1
+        elif ch in ")]":
+            depth -= 1
+        if ch == "," and depth == 0:
+            out.append(cur.strip())
+            cur = ""
+        else:
+            cur += ch
+    out.append(cur.strip())
+    return out
+
+
+def literal_aggregate(plan_text):
+    """count(DISTINCT c) / sum(c) where c is projected from a column-free expression (a literal after constant folding)."""
+    proj = {}
+    for line in plan_text.splitlines():
+        line = line.strip()
+        if line.startswith("Projection:"):
+            for item in _split_top(line[len("Projection:"):]):
+                m = re.match(r"^(.*) AS ([\w]+)$", item)
+                if m and all(t in _KW for t in re.findall(r"[A-Za-z_][\w.]*", re.sub(r'"[^"]*"', "", m.group(1)))):
+                    proj[m.group(2)] = m.group(1)
+    for m in re.finditer(r"(?:count\(DISTINCT |sum\()([\w.]+)\)", plan_text):
+        if m.group(1).split(".")[-1] in proj:
+            return True
+    return False
+
+
 def finding_key(plan_text, err=None):
     """Narrow keys of genuine engine defects (known_findings.json)."""
     if re.search(r"LeftAnti Join:\s+Filter:.*null_aware", plan_text or ""):
         return "null-aware-anti-join-without-equijoin-keys"
-    for m in re.finditer(r"count\(DISTINCT ([\w.]+)\)", plan_text or ""):
-        name = m.group(1).split(".")[-1]
-        if re.search(r"(?:CAST\()?(Int64|Utf8|Boolean)\([^)]*\)(?: AS \w+\))? AS " + re.escape(name) + r"\b", plan_text):
-            return "count-distinct-of-projected-literal-answered-from-statistics"
+    if literal_aggregate(plan_text or ""):
+        return "count-distinct-of-projected-literal-answered-from-statistics"
     if err and "Physical input schema should be the same as the one converted from logical input schema" in err \
             and "(physical) true vs (logical) false" in err:
         return "is-true-family-nullability-mismatch"
